@@ -138,6 +138,7 @@ func (c *coalescer) submit(ctx context.Context, msg *internalpb.RemoteMessage) e
 	// channel op, avoiding the cost of arming ctx.Done() / c.done selects.
 	select {
 	case c.in <- msg:
+		c.reapIfClosed()
 		return nil
 	default:
 	}
@@ -146,6 +147,7 @@ func (c *coalescer) submit(ctx context.Context, msg *internalpb.RemoteMessage) e
 	// first. This is the backpressure signal to the caller.
 	select {
 	case c.in <- msg:
+		c.reapIfClosed()
 		return nil
 	case <-ctx.Done():
 		return ctx.Err()
@@ -159,6 +161,39 @@ func (c *coalescer) submit(ctx context.Context, msg *internalpb.RemoteMessage) e
 func (c *coalescer) close() {
 	c.closeOnce.Do(func() { close(c.done) })
 	c.wg.Wait()
+	c.reapLeftovers()
+}
+
+// reapIfClosed is called by submit after a successful enqueue. A submit that
+// passed the shutdown pre-check can still enqueue after the writer has exited;
+// nobody would ever look at that message again. Whoever observes the closed
+// state after enqueueing therefore hands what is left to the error handler.
+func (c *coalescer) reapIfClosed() {
+	select {
+	case <-c.done:
+	default:
+		return
+	}
+	c.wg.Wait()
+	c.reapLeftovers()
+}
+
+// reapLeftovers hands every message still queued after the writer exited to
+// the error handler so that an accepted message is never dropped silently.
+func (c *coalescer) reapLeftovers() {
+	var left []*internalpb.RemoteMessage
+	for {
+		select {
+		case m := <-c.in:
+			left = append(left, m)
+			continue
+		default:
+		}
+		break
+	}
+	if len(left) > 0 && c.errHandler != nil {
+		c.errHandler(c.dest, left, errCoalescerClosed)
+	}
 }
 
 // run is the writer loop. It waits for at least one message to be available,
@@ -220,12 +255,16 @@ func (c *coalescer) run() {
 	for {
 		select {
 		case <-c.done:
-			// Drain anything still buffered and exit. Submit refuses new
-			// enqueues once done is closed, so the channel is a bounded
-			// set at this point.
-			drainReady()
-			flush()
-			return
+			// Flush everything that was accepted before the shutdown, not
+			// just the first batch. A submit racing the shutdown may still
+			// enqueue afterwards; close and submit reap such leftovers.
+			for {
+				drainReady()
+				if len(batch) == 0 {
+					return
+				}
+				flush()
+			}
 		case m := <-c.in:
 			batch = append(batch, m)
 			drainReady()
